@@ -252,7 +252,96 @@ func c11units(tier string) []mc.Unit {
 			r.AddNontrivial(1)
 		}})
 	}
+	// structured sweep: every length 0..300 and geometrically beyond, each with the fixed shapes of dnaShapes
+	// (homopolymers, alternations, inverted repeats, pure A/C/G/T and mixed-code pseudo-random strings, mixed case)
+	lens := sweepLengths(0, tier2(tier, 300, 600), tier2(tier, 70000, 200000))
+	for part := 0; part < 4; part++ {
+		part := part
+		us = append(us, mc.Unit{Name: fmt.Sprintf("sweep/part=%d", part), Weight: 40, Run: func(r *mc.Recorder) {
+			cnt := int64(0)
+			for i, n := range lens {
+				if i%4 != part {
+					continue
+				}
+				shapes := dnaShapes(n)
+				shapes = append(shapes, shaped{"IUPAC pseudo-random", lcgString(c11codes, n, 3)},
+					shaped{"mixed case A/C/G/T", lcgString("ACGTacgt", n, 4)}, shaped{"lower case", strings.ToLower(lcgString("ACGT", n, 6))})
+				for _, sh := range shapes {
+					cnt++
+					if n <= 300 {
+						c11one(r, sh.s, false)
+						continue
+					}
+					c11long(r, sh.s, fmt.Sprintf("%s, %d letters", sh.shape, n))
+				}
+			}
+			r.Eval(cnt)
+			r.AddStates(cnt)
+			r.AddTransitions(cnt * 6)
+			r.AddNontrivial(cnt)
+			r.Bound("sweep", fmt.Sprintf("%d lengths (every length to %d, then +7%% steps to %d) x about 20 shapes", len(lens), tier2(tier, 300, 600), lens[len(lens)-1]))
+		}})
+	}
+	// large expansions (up to 4^9 variants) under several GOMAXPROCS settings
+	for _, in := range []string{"NNNNNNNN", "NNNNNNNNN", "BDHVBDHVBD", "BBBBBBBBBBB", "NRYNKMNBDN", "ANNNNCNNNNG", "VVVVVVVVVHA"} {
+		in := in
+		us = append(us, mc.Unit{Name: "large-expansion/" + in, Weight: 60, Run: func(r *mc.Recorder) {
+			want := c11expand(in)
+			withProcs(procsMenu, func(p int) {
+				got, err := variants.AllVariantsIUPAC(in)
+				g := append([]string(nil), got...)
+				sort.Strings(g)
+				ok := err == nil && len(g) == len(want)
+				for i := 0; ok && i < len(g); i++ {
+					ok = g[i] == want[i]
+				}
+				if !ok {
+					bad := ""
+					for i := 0; i < len(g) && i < len(want); i++ {
+						if g[i] != want[i] {
+							bad = fmt.Sprintf("first difference at sorted index %d: %q, want %q", i, g[i], want[i])
+							break
+						}
+					}
+					r.Failf("variants-exact", fmt.Sprintf("%s with GOMAXPROCS=%d", in, p), []string{"large"}, fmt.Sprintf("%d variants, each once", len(want)), fmt.Sprintf("%d variants, err=%v, %s", len(g), err, bad))
+				}
+				r.Eval(1)
+				r.AddStates(1)
+				r.AddTransitions(int64(len(want)))
+				r.AddNontrivial(1)
+			})
+			r.Bound("large-expansion", fmt.Sprintf("expansions of up to %d variants under GOMAXPROCS in %v", len(want), procsMenu))
+		}})
+	}
 	return us
+}
+
+// c11long checks a long string against the oracle (no per-split loop).
+func c11long(r *mc.Recorder, s, label string) {
+	n := len(s)
+	want := c11rc(s)
+	var rc string
+	if p := catch(func() { rc = transform.ReverseComplement(s) }); p != "" || rc != want {
+		i := 0
+		for i < len(rc) && i < len(want) && rc[i] == want[i] {
+			i++
+		}
+		r.Failf("rc-code-semantics", label, nil, "oracle reverse complement", fmt.Sprintf("first difference at %d of %d %s", i, len(rc), p))
+	}
+	if rr := transform.ReverseComplement(rc); rr != s {
+		r.Failf("rc-involution", label, nil, "the input", "differs")
+	}
+	for _, k := range []int{1, n / 3, n - 1} {
+		if transform.ReverseComplement(s[k:])+transform.ReverseComplement(s[:k]) != rc {
+			r.Failf("rc-anti-homomorphism", fmt.Sprintf("%s split at %d", label, k), nil, "rc(b)+rc(a)", "differs")
+		}
+	}
+	if transform.Reverse(transform.Complement(s)) != rc {
+		r.Failf("rc-is-reverse-of-complement", label, nil, "equal", "differs")
+	}
+	if got, w := checks.IsPalindromic(s), s == want; got != w {
+		r.Failf("palindromic", label, nil, fmt.Sprint(w), fmt.Sprint(got))
+	}
 }
 
 func init() {
